@@ -9,9 +9,9 @@ from fractions import Fraction
 import numpy as np
 import z3
 
-from pysym import ast2smt, core, npfacade, repo_module
+from pysym import ast2smt, core, npfacade, probes, repo_module
 from pysym.core import And, Implies, Or, SBV, SBool, SComplex, SInt, SReal
-from pysym.runner import Harness, model_floats
+from pysym.runner import ConcreteViolation, Harness, model_floats
 
 PROPERTY = 'C01'
 FU = 'pyphysim.modulators.fundamental'
@@ -46,7 +46,16 @@ EXPLANATION = (
     'integer index windows above M (ValueError on every path), BPSK index > 1 '
     'for an unbounded symbolic integer, constructors swept concretely for '
     'M in 1..4100 plus a bit-vector lemma (real gray2binary) showing that a '
-    'non-power-of-two PSK order always indexes out of range.')
+    'non-power-of-two PSK order always indexes out of range.  What the '
+    'exact-real model cannot see (dtype, container, memory layout, aliasing) '
+    'is covered by concrete data-representation probes in the concrete runs '
+    'of the roundtrip and table harnesses: the real modulate / demodulate / '
+    'round trip of every modulator object (BPSK, QPSK, PSK 2..1024, QAM '
+    '4..1024/4096, also after setPhaseOffset) on 1-D, 2-D and 3-D arrays '
+    'are repeated on read-only, Fortran-ordered, transposed, strided, '
+    'axis-permuted, narrower-dtype, list and scalar variants and on the same '
+    'array objects twice, checking equal results, the nearest-point / table '
+    'oracle, unchanged arguments and no aliasing.')
 ASSUMPTIONS = [
     'floats are modelled as exact reals (rounding of the distance '
     'computation is outside the claim; replay oracles use a 1e-9 margin)',
@@ -213,6 +222,206 @@ def _fill(shape, elems):
     for idx, e in zip(np.ndindex(*a.shape), elems):
         a[idx] = e
     return a
+
+
+# ---------------------------------------------------------------------------
+# concrete data-representation probes (dtype, container, memory layout,
+# aliasing): invisible to the exact-real symbolic model, so the REAL
+# modulate / demodulate are run on representation variants of one concrete
+# input and compared with the canonical call and with the property's oracle
+PROBE_UNSIGNED = False      # see _REP_OUTSIDE (genuine defect, reported)
+
+_REP_ASSUME = (
+    'data-representation probes (concrete differential runs of the real '
+    'code, pysym.probes): the canonical call uses fresh C-ordered int64 index '
+    'arrays / complex128 (and float64) sample arrays; the same call is '
+    'repeated on read-only, Fortran-ordered, transposed, strided and '
+    'axis-permuted (moveaxis, neither C nor F contiguous) views, nested '
+    'lists (modulate of the table modulators), int32/int8/int16 index '
+    'arrays, complex64/float32 and integer-dtype sample arrays, Python / '
+    'numpy scalar indexes, and for BPSK on float64/float32 0/1 index arrays; '
+    'arguments must stay unchanged, results must not alias them, and a '
+    'second call on the same objects must give the same result', )
+_REP_OUTSIDE = (
+    'representations the unchanged library does not accept, excluded from '
+    'the probes: Python lists for demodulate (it reads receivedData.shape: '
+    'ndarray documented) and for BPSK.modulate (`list > 1` is a TypeError; '
+    'ndarray documented); float index arrays / Python float scalars for the '
+    'table modulators (numpy refuses non-integer indexes: ValueError from '
+    'modulate); boolean index arrays (numpy mask semantics)',
+    'unsigned-integer index arrays for BPSK.modulate: `1 - 2*bits` wraps '
+    '(np.unpackbits output gives 255 for bit 1; every bit then demodulates '
+    'to 0).  This is a genuine defect of the unchanged library, reported to '
+    'the maintainers of this check; its probe (PROBE_UNSIGNED) is disabled '
+    'until it is registered as a known finding')
+
+
+def _layouts3(x):
+    """extra layouts of an array with ndim >= 3 that are neither C nor F
+    contiguous (same values, same shape)"""
+    out = []
+    if isinstance(x, np.ndarray) and x.ndim >= 3 and min(x.shape) > 1:
+        y = np.moveaxis(np.ascontiguousarray(np.moveaxis(x, 0, -1)), -1, 0)
+        out.append(('axis-permuted view (moveaxis)', y))
+        z = np.moveaxis(np.ascontiguousarray(np.moveaxis(x, 1, 0)), 0, 1)
+        out.append(('axis-permuted view (axes 0,1 swapped in memory)', z))
+    return out
+
+
+def _probe_call(prefix, call, x, kinds, allow=(), extra=()):
+    """probes.require + the extra variants of this check (same verdict
+    format); returns the canonical result"""
+    probes.require(prefix, call, [x], kinds=kinds, allow=allow)
+    base = call(x.copy() if isinstance(x, np.ndarray) else x)
+    for tag, v in list(_layouts3(x)) + list(extra):
+        keep = v.copy()
+        try:
+            out = call(v)
+        except Exception as e:
+            raise ConcreteViolation(
+                '%s:data-representation:raises-%s' % (prefix,
+                                                      type(e).__name__),
+                dict(variant=tag, exc=repr(e)))
+        if np.shape(out) != np.shape(base) or not np.allclose(
+                np.asarray(out).astype(complex),
+                np.asarray(base).astype(complex), rtol=1e-9, atol=1e-12):
+            raise ConcreteViolation(
+                '%s:data-representation:differs' % prefix,
+                dict(variant=tag, canonical=np.asarray(base).tolist(),
+                     got=np.asarray(out).tolist()))
+        if not np.array_equal(keep, v):
+            raise ConcreteViolation(
+                '%s:data-representation:argument-modified' % prefix,
+                dict(variant=tag))
+    return base
+
+
+def _oracle_fail(prefix, what, **detail):
+    raise ConcreteViolation('%s:data-representation:%s' % (prefix, what),
+                            detail)
+
+
+def _rep_probes(cfg, rng):
+    """representation probes of modulate / demodulate / round trip for the
+    modulator of `cfg` (ONE object re-used for all calls); returns the
+    number of probed calls"""
+    m = _build(cfg)
+    M = cfg['M']
+    bpsk = cfg['kind'] in ('BPSK', 'BPSK-base')
+    tab = _table(m)
+    smod = 'C01/%s.modulate' % ('BPSK' if bpsk else 'Modulator')
+    sdem = 'C01/%s.demodulate' % ('BPSK' if bpsk else 'Modulator')
+    srt = 'C01/%s.demodulate(modulate)' % ('BPSK' if bpsk else 'Modulator')
+    layout = ('readonly', 'fortran', 'strided')
+    cnt = 0
+
+    def rt(idx):
+        return m.demodulate(np.asarray(m.modulate(idx)))
+
+    for sh in [(7, ), (3, 4), (2, 3, 2)]:
+        n = int(np.prod(sh))
+        idx = np.array([rng.randrange(M) for _ in range(n)],
+                       dtype=np.int64).reshape(sh)
+        small = [('%s array' % np.dtype(t).name, idx.astype(t))
+                 for t in (np.int32, np.int16, np.int8) if M <= 64]
+        if PROBE_UNSIGNED:
+            small += [('%s array' % np.dtype(t).name, idx.astype(t))
+                      for t in (np.uint8, np.uint32)]
+        # -- modulate ------------------------------------------------------
+        kinds = layout if bpsk else layout + ('list', )
+        s = _probe_call(smod, m.modulate, idx, kinds, extra=small)
+        if np.shape(s) != sh or [complex(v) for v in np.ravel(s)] != [
+                tab[int(l)] for l in idx.ravel()]:
+            _oracle_fail(smod, 'not-the-table-symbols', labels=idx.tolist(),
+                         emitted=np.asarray(s).tolist())
+        cnt += 1
+        # -- demodulate ----------------------------------------------------
+        # samples exactly representable in complex64, so that the narrow
+        # variant denotes the same numbers
+        rx = np.array([complex(np.float32(rng.uniform(-2, 2)),
+                               0.0 if bpsk and rng.random() < 0.5 else
+                               np.float32(rng.uniform(-2, 2)))
+                       for _ in range(n)]).reshape(sh)
+        d = _probe_call(sdem, m.demodulate, rx, layout + ('narrow', ))
+        if np.shape(d) != sh or any(
+                _not_nearest(tab, r, int(k))
+                for r, k in zip(rx.ravel(), np.ravel(d))):
+            _oracle_fail(sdem, 'not-nearest', samples=rx.tolist(),
+                         returned=np.asarray(d).tolist())
+        # real, integer-valued samples: float64 / float32 / integer dtypes
+        rr = np.array([float(rng.choice([-3, -2, -1, 1, 2, 3]))
+                       for _ in range(n)]).reshape(sh)
+        d = _probe_call(sdem, m.demodulate, rr,
+                        layout + ('int', 'narrow'))
+        if np.shape(d) != sh or any(
+                _not_nearest(tab, r, int(k))
+                for r, k in zip(rr.ravel(), np.ravel(d))):
+            _oracle_fail(sdem, 'not-nearest', samples=rr.tolist(),
+                         returned=np.asarray(d).tolist())
+        cnt += 2
+        # -- round trip, the same array objects used twice -----------------
+        keep = idx.copy()
+        for rep in (1, 2):
+            out = rt(idx)
+            if not np.array_equal(idx, keep):
+                _oracle_fail(srt, 'argument-modified', call=rep,
+                             before=keep.tolist(), after=idx.tolist())
+            if np.shape(out) != sh or not np.array_equal(out, keep):
+                _oracle_fail(srt, 'roundtrip-differs', call=rep,
+                             labels=keep.tolist(),
+                             got=np.asarray(out).tolist())
+        _probe_call(srt, rt, idx, kinds, extra=small)
+        cnt += 1
+        if bpsk:
+            # BPSK maps arithmetically, so 0/1 bits in a float container
+            # are valid input
+            fidx = idx.astype(np.float64)
+            fkeep = fidx.copy()
+            fk = layout + ('int', 'narrow')
+            s = _probe_call(smod, m.modulate, fidx, fk)
+            if [complex(v) for v in np.ravel(s)] != [
+                    tab[int(l)] for l in idx.ravel()]:
+                _oracle_fail(smod, 'not-the-table-symbols',
+                             labels=fidx.tolist(),
+                             emitted=np.asarray(s).tolist())
+            for rep in (1, 2):
+                out = rt(fidx)
+                if not np.array_equal(fidx, fkeep):
+                    _oracle_fail(srt, 'argument-modified', call=rep,
+                                 before=fkeep.tolist(), after=fidx.tolist())
+                if np.shape(out) != sh or not np.array_equal(out, idx):
+                    _oracle_fail(srt, 'roundtrip-differs', call=rep,
+                                 labels=fkeep.tolist(),
+                                 got=np.asarray(out).tolist())
+            _probe_call(srt, rt, fidx, fk)
+            cnt += 2
+    # transposed 2-D received block and index block (a view, not a copy)
+    blk = np.array([rng.randrange(M) for _ in range(12)],
+                   dtype=np.int64).reshape(3, 4)
+    sent = np.asarray(m.modulate(blk)).astype(complex)
+    for view in (sent.T, sent[:, ::2], sent[:, ::2].T, sent[::-1]):
+        out = m.demodulate(view)
+        ref = m.demodulate(np.ascontiguousarray(view))
+        if np.shape(out) != view.shape or not np.array_equal(out, ref):
+            _oracle_fail(sdem, 'differs', variant='view of a 2-D block',
+                         canonical=ref.tolist(),
+                         got=np.asarray(out).tolist())
+        cnt += 1
+    if not np.array_equal(m.demodulate(sent.T), blk.T):
+        _oracle_fail(srt, 'roundtrip-differs', variant='transposed block')
+    # scalar / 0-d indexes
+    l = rng.randrange(M)
+    allow = () if bpsk else ('raises-ValueError(Python float', )
+    probes.require(smod, m.modulate, [int(l)], kinds=('pyscalar', ),
+                   allow=allow)
+    if complex(m.modulate(np.array(l))) != tab[l] or \
+            complex(m.modulate(np.int64(l))) != tab[l]:
+        _oracle_fail(smod, 'not-the-table-symbols', label=l)
+    z = np.array(complex(rng.uniform(-2, 2), rng.uniform(-2, 2)))
+    k = m.demodulate(z)
+    if np.shape(k) != () or _not_nearest(tab, complex(z), int(k)):
+        _oracle_fail(sdem, 'not-nearest', sample=complex(z))
+    return cnt + 3
 
 
 # ---------------------------------------------------------------------------
@@ -650,10 +859,10 @@ class RoundTrip(Harness):
               'of shape (2,)/(1,2) for M <= 8)')
     stubs = ('symbols[SInt] -> solver enumeration of the feasible index '
              'values (one path per value)', )
-    assumptions = tuple(ASSUMPTIONS)
+    assumptions = tuple(ASSUMPTIONS) + _REP_ASSUME
     outside = ('negative labels (documented by the code as unchecked)',
                'M > 64 for the symbolic label (covered by the table harness '
-               'over all labels)')
+               'over all labels)') + _REP_OUTSIDE
 
     def configs(self, tier):
         out = [dict(kind='BPSK', M=2, n=1), dict(kind='BPSK', M=2, n=2),
@@ -760,7 +969,7 @@ class RoundTrip(Harness):
             assert out.shape == shape and np.array_equal(out, idx), (cfg,
                                                                       idx)
             cnt += 1
-        return cnt
+        return cnt + _rep_probes(cfg, rng)
 
 
 # ---------------------------------------------------------------------------
@@ -807,10 +1016,11 @@ class Table(Harness):
               'scalars (int, np.int64), Python lists')
     assumptions = ('the table queries range over the doubles the real '
                    'object emits (exact rationals); mean energy within '
-                   '1e-12 of 1', )
+                   '1e-12 of 1', ) + _REP_ASSUME
     outside = ('PSK orders above 2^10, QAM orders above 4^6',
                'phase offsets other than the four literals (any-table '
-               'harness covers detection for arbitrary tables of <= 8 points)')
+               'harness covers detection for arbitrary tables of <= 8 points)'
+               ) + _REP_OUTSIDE
     unit_wall_s = {'quick': 240, 'thorough': 1500}
 
     def configs(self, tier):
@@ -962,7 +1172,7 @@ class Table(Harness):
                     detail=dict(M=M, label=a, detected=got))
 
     def concrete(self, cfg, rng):
-        return 1
+        return _rep_probes(cfg, rng)
 
 
 # ---------------------------------------------------------------------------
@@ -1383,7 +1593,9 @@ MANIFEST = dict(
     'QAM normalisation, ValueError for symbolic indexes >= M, constructor '
     'sweep M = 2..4100 plus a bit-vector lemma for non-power-of-two PSK '
     'orders.',
-    note='floats as exact reals (distance rounding outside); |z| as a lazy '
+    note='dtype / memory layout / aliasing are checked by concrete '
+    'differential probes (pysym.probes), not by the solver; floats as exact '
+    'reals (distance rounding outside); |z| as a lazy '
     'square root compared on squares; literal phase offsets for emitted '
     'tables (arbitrary small tables symbolic); constructor guards are '
     'transcendental FP: swept concretely; negative indexes documented as '
